@@ -220,7 +220,7 @@ void parallel_for(const Range &range, const Body &body) {
         for (auto &ev : c.events) for (auto *v : ev) if (std::find(seen.begin(), seen.end(), v) == seen.end()) seen.push_back(v);
         for (auto *v : seen) { if (v->has_parked()) { fprintf(stderr, "HARNESS-ERROR vtbb: parked pushes left after merge\n"); exit(2); } v->reset_parked(); }
     }
-    c.events.clear();
+    std::vector<std::vector<ParkedVectorBase*>>().swap(c.events);   // keep no heap storage between calls
 }
 #else
 template<class Range, class Body>
